@@ -342,6 +342,13 @@ class FlatSet : private Compare {
 
   template <class C2, typename std::enable_if<!std::is_same<Compare, C2>::value, bool>::type = true>
   void merge(FlatSet<T, C2, Alloc, VecType> &o) {
+    merge_unordered(o);
+  }
+
+ private:
+  /// Merge from a set whose elements are not necessarily ordered according to our comparator
+  template <class OtherFlatSet>
+  void merge_unordered(OtherFlatSet &o) {
     for (miterator oit = o.mbegin(); oit != o.mend();) {
       miterator lbIt = std::lower_bound(mbegin(), mend(), *oit, compRef());
       if (lbIt == mend()) {
@@ -357,7 +364,13 @@ class FlatSet : private Compare {
     }
   }
 
+ public:
   void merge(FlatSet &o) {
+    if (!std::is_empty<Compare>::value) {
+      // The comparator objects may hold different states: 'o' is not necessarily ordered according to ours
+      merge_unordered(o);
+      return;
+    }
     // Do not use std::inplace_merge to avoid allocating memory if not needed
     miterator first1 = mbegin(), last1 = mend();
     miterator first2 = o.mbegin(), last2 = o.mend();
